@@ -239,6 +239,12 @@ def mpsc_prog(al, ops):
     return out
 
 
+def random_interleaving(rng, counts):
+    il = [t for t, n in enumerate(counts) for _ in range(n)]
+    rng.shuffle(il)
+    return il
+
+
 MP_STEPS = {PUSH: 4, POP: 6, REPUSH: 4}
 SP_STEPS = {PUSH: 5, POP: 6}
 
@@ -257,8 +263,8 @@ def gen_mpsc(ctx, tier, rng):
     # consumer pop against two producers (sampled in quick, all in thorough)
     al = Alloc(2)
     p3 = [mpsc_prog(al, [POP]), mpsc_prog(al, [PUSH]), mpsc_prog(al, [PUSH])]
-    ils = core.interleavings([6, 4, 4])
-    pick = ils if tier == "thorough" else rng.sample(ils, 6000)
+    pick = (core.interleavings([6, 4, 4]) if tier == "thorough"
+            else [random_interleaving(rng, [6, 4, 4]) for _ in range(6000)])
     for il in pick:
         cases.append(core.fmt_case([200], p3, il))
     n_ex = len(cases)
@@ -365,8 +371,7 @@ def gen_mpscr(ctx, tier, rng):
         cases.append(core.fmt_case([300, 1], [mr_prog(al, [POP]), mr_prog(al, [("push", 0)])], il))
     al = Alloc(20)
     p3 = [mr_prog(al, [POP]), mr_prog(al, [("push", 0)]), mr_prog(al, [("push", 2)])]
-    ils = core.interleavings([15, 5, 5], limit=400000)
-    for il in (ils if tier == "thorough" else rng.sample(ils, 3000)):
+    for il in [random_interleaving(rng, [15, 5, 5]) for _ in range(3000 if tier == "quick" else 100000)]:
         cases.append(core.fmt_case([300, 3], p3, il))
     n_ex = len(cases)
     nrand = 8000 if tier == "quick" else 120000
